@@ -36,13 +36,23 @@ Inductive cop := CAdd | CSub | CMul | CFloorDiv | CMod.
 (* arguments of the `range(...)` call of a for statement *)
 Inductive rargs := R1 (e : expr) | R2 (a b : expr) | R3 (a b s : expr).
 
+(* A call expression: calls appear only at the top of an assignment's right-hand side, a println
+   argument, a return value or an expression statement, and their arguments are call-free
+   expressions (fragment restriction: `f(x) + 1` and `f(g(x))` are outside the proved fragment).
+   [pos] are the positional arguments, [kw] the keyword arguments, both in written order. *)
+Inductive cexpr :=
+| CPure (e : expr)
+| CCall (f : ident) (pos : list expr) (kw : list (ident * expr)).
+
 Inductive stmt :=
-| SAssign (k : bkind) (x : ident) (ann : option ty) (e : expr)
+| SAssign (k : bkind) (x : ident) (ann : option ty) (c : cexpr)
 | SCompound (o : cop) (x : ident) (e : expr)
 | SIf (c : expr) (th : block) (el : els)
 | SWhile (c : expr) (b : block)
 | SFor (x : ident) (r : rargs) (b : block)
-| SPrint (e : expr)
+| SPrint (c : cexpr)
+| SExpr (c : cexpr)                   (* expression statement: a call *)
+| SReturn (c : option cexpr)
 | SPass
 | SBreak
 | SContinue
@@ -54,8 +64,48 @@ Scheme stmt_mind := Induction for stmt Sort Prop
   with els_mind := Induction for els Sort Prop.
 Combined Scheme stmt_block_els_ind from stmt_mind, block_mind, els_mind.
 
-(* a test function: `def t(v_p1: int, ..., v_pn: int) -> None: body`, called with [args] *)
-Record fcase := { params : list ident; args : list Z; body : block }.
+(* `def f<fname>(v_p1: int, ...) -> int | None: body`; function k is spelled "f<k>" *)
+Record fdef := { fname : ident; fparams : list ident; fret : bool; fbody : block }.
+Definition prog := list fdef.
+
+Fixpoint find_fn (f : ident) (p : prog) : option fdef :=
+  match p with
+  | [] => None
+  | d :: r => if f =? fname d then Some d else find_fn f r
+  end.
+
+(* Binding of arguments to parameters BY NAME: a parameter named by a keyword argument takes that
+   argument, the others take the positional arguments in order.  For every parameter (in declaration
+   order) the index of its argument in the written list pos ++ kw; None on an arity mismatch. *)
+Fixpoint kw_index (p : ident) (kws : list ident) (j : nat) : option nat :=
+  match kws with
+  | [] => None
+  | k :: r => if p =? k then Some j else kw_index p r (S j)
+  end.
+
+Fixpoint select (params : list ident) (npos next : nat) (kws : list ident) : option (list nat) :=
+  match params with
+  | [] => Some []
+  | p :: r =>
+      match kw_index p kws npos with
+      | Some j => match select r npos next kws with Some l => Some (j :: l) | None => None end
+      | None => if (next <? npos)%nat
+                then match select r npos (S next) kws with Some l => Some (next :: l) | None => None end
+                else None
+      end
+  end.
+
+Fixpoint pick {A} (l : list A) (sel : list nat) : option (list A) :=
+  match sel with
+  | [] => Some []
+  | i :: r => match nth_error l i, pick l r with
+              | Some a, Some t => Some (a :: t)
+              | _, _ => None
+              end
+  end.
+
+(* a test case: the program, the function called and its (integer) arguments *)
+Record fcase := { cprog : prog; centry : ident; args : list Z }.
 
 Definition binop_of_cop (o : cop) : binop :=
   match o with CAdd => OpAdd | CSub => OpSub | CMul => OpMul | CFloorDiv => OpFloorDiv | CMod => OpMod end.
